@@ -689,13 +689,29 @@ KERNEL_GROUPS['KernelsDnaStr'] = [
     # DnaStr.replace_substr / insert_substr: how a variant is spliced into a template (slices, f-strings of DNA text)
     ('strings/dna_str.py', 'DnaStr.replace_substr', 'k_dna_replace_substr', 'dna'),
     ('strings/dna_str.py', 'DnaStr.insert_substr', 'k_dna_insert_substr', 'dna'),
+    # ... and the way from a variant to the altered sequence: alter_seq -> Seq.alter -> Seq.replace_substr / insert_substr (absolute coordinates)
+    ('utils.py', 'clamp_non_negative', 'kd_clamp_non_negative', None),
+    ('utils.py', 'get_end', 'kd_get_end', None),
+    ('uint_range.py', 'UIntRange.offset', 'kd_range_offset', 'range'),
+    ('variant.py', '_raise_no_ref_alt', 'kd_raise_no_ref_alt', None),
+    ('variant.py', 'Variant.ref_len', 'kd_var_ref_len', 'variant'),
+    ('variant.py', 'Variant.ref_end', 'kd_var_ref_end', 'variant'),
+    ('variant.py', 'Variant.ref_range', 'kd_var_ref_range', 'variant'),
+    ('variant.py', 'Variant.type', 'kd_var_type', 'variant'),
+    ('variant.py', 'Variant.is_insertion', 'kd_var_is_insertion', 'variant'),
+    ('seq.py', 'Seq.get_rel_range', 'k_seq_get_rel_range', 'seq'),
+    ('seq.py', 'Seq.get_rel_pos', 'k_seq_get_rel_pos', 'seq'),
+    ('seq.py', 'Seq.replace_substr', 'k_seq_replace_substr', 'seq'),
+    ('seq.py', 'Seq.insert_substr', 'k_seq_insert_substr', 'seq'),
+    ('seq.py', 'Seq.alter', 'k_seq_alter', 'seq'),
+    ('oligo_seq.py', 'alter_seq', 'k_alter_seq', None),
 ]
-KERNEL_EXTRA_SOURCES = {'KernelsMave': ['enums.py'], 'KernelsNames': ['enums.py', 'constants.py'], 'KernelsLift': ['enums.py'], 'KernelsGpo': ['enums.py']}
+KERNEL_EXTRA_SOURCES = {'KernelsMave': ['enums.py'], 'KernelsNames': ['enums.py', 'constants.py'], 'KernelsLift': ['enums.py'], 'KernelsGpo': ['enums.py'], 'KernelsDnaStr': ['enums.py']}
 KERNEL_CONSTS = {'KernelsNames': ('REVCOMP_OLIGO_NAME_SUFFIX',)}
 KERNEL_IMPORTS = {'KernelsTargeton': ' Model.Targeton', 'KernelsMave': ' Model.Seq Model.Vcf Model.Mave Model.PyStr',
                   'KernelsNames': ' Model.Seq Model.Vcf Model.Mave Model.PyStr', 'KernelsLift': ' Model.Seq Model.Vcf Model.Gpo',
                   'KernelsGpo': ' Model.Seq Model.Vcf Model.Gpo Model.PyStr Model.PyLoop', 'KernelsExons': ' Model.PyLoop', 'KernelsCounts': ' Model.Unique Model.PyLoop',
-                  'KernelsMetaRow': ' Model.Seq Model.Vcf Model.Mave Model.Gpo Model.ToCsv', 'KernelsDnaStr': ' Model.Seq Model.PyLoop'}
+                  'KernelsMetaRow': ' Model.Seq Model.Vcf Model.Mave Model.Gpo Model.ToCsv', 'KernelsDnaStr': ' Model.Seq Model.Vcf Model.Mave Model.PyStr Model.PyLoop'}
 
 
 def _kernel_extractor(name):
